@@ -815,7 +815,10 @@ class NetConnections:
         inodes = {}
         for pid in pids():
             try:
-                inodes.update(self.get_proc_inodes(pid))
+                # A socket (UNIX ones in particular) can be held by
+                # more than one process: keep all the holders.
+                for inode, pairs in self.get_proc_inodes(pid).items():
+                    inodes.setdefault(inode, []).extend(pairs)
             except (FileNotFoundError, ProcessLookupError, PermissionError):
                 # os.listdir() is gonna raise a lot of access denied
                 # exceptions in case of unprivileged user; that's fine
